@@ -36,7 +36,11 @@ StepN(M, st) ==
         ELSE IF nr
         THEN (IF reqTx # {} THEN {"request_sent_although_not_routable"} ELSE {}) \cup
              (IF \E p \in Strict(a, r) : ready(p) THEN {"not_routable_although_eligible_ready_peer"} ELSE {})
-        ELSE (IF Cardinality(reqTx) # 1 THEN {"request_not_sent_exactly_once"} ELSE {}) \cup
+        \* (a request accepted for a connection that the node closes in the same instant - a watchdog timeout falling due -
+        \*  is lost with it; the sender then times out, which the statement allows)
+        ELSE (IF Cardinality(reqTx) > 1 \/ (Cardinality(reqTx) = 0 /\
+                   ~\E j \in 1..Len(out) : out[j].ev = "sock_close" /\ \E p \in peerOfConn(out[j].c) : p \in Allowed(a, r))
+              THEN {"request_not_sent_exactly_once"} ELSE {}) \cup
              (IF ~\E p \in Allowed(a, r) : ready(p) THEN {"request_sent_without_eligible_ready_peer"} ELSE {}) \cup
              UNION {(IF ~\E p \in peerOfConn(out[j].c) : p \in Allowed(a, r) /\ ready(p) THEN {"request_sent_to_ineligible_or_unready_peer"} ELSE {}) \cup
                     (IF out[j].m.hbh = 0 THEN {"zero_hop_by_hop_id"} ELSE {}) \cup
